@@ -18,6 +18,13 @@ PROPS = {
         "trusted": COMMON_TRUST + ["allocation and wall-clock bounds are measured on the real code by the harness (counting allocator, timer, watchdog); the model proves totality and panic-freedom only"],
         "assumptions": [],
     },
+    "C11": {
+        "modules": ["PrioProofs.Props.C11"],
+        "posthash": True,
+        "rule": "tapes with a planted rejection at every chunk position across two buffer refills, double/triple rejections around positions 30-33 and 62-65, a run of 40 rejections, random patterns, for all four fields and three output lengths; field switch Field64->Field255 (hook) on tapes with planted rejections; unbuffered sampler; 3 XOFs x tag/binder lengths {0,1,8,9,40,200}x{0,1,16,17,100} with random splittings and read sizes (the model's absorbed message is hashed with the raw turboshake/hmac/aes crates and must reproduce the library's stream); fixed-key stream under read-size sequences incl. 0, 1, 15-17, 16; non-trivial = all;",
+        "trusted": COMMON_TRUST + ["TurboSHAKE128, HMAC-SHA256, AES-128 and CTR mode (turboshake, hmac, sha2, aes, ctr crates): modelled as functions of the absorbed message / as position-determined streams"],
+        "assumptions": ["`Update::update` of the hash crates is concatenative; the TurboSHAKE reader and AES-CTR keystream are position-determined (checked by the oracle on random read sizes, not proved)"],
+    },
     "C13": {
         "modules": ["PrioProofs.Props.C13"],
         "rule": "random multisets of 1-7 output shares of length 0-5 over four fields (extremes 0 and p-1 with probability 1/4), random permutation, random partition into batches, random merge-tree shape and merge direction, pairwise merges with length mismatch in 1/3 of the cases, Poplar1FieldVec kind/length mismatches; non-trivial = all;",
